@@ -42,6 +42,9 @@ def make_sign_key(alg, rep, rng, kid=None):
     a = alg_name(alg)
     kty = kty_of(alg)
     extra = {"kid": kid} if kid else {}
+    if rng.random() < 0.3:
+        # a key restricted to exactly what signing and verifying need
+        extra.update({"use": "sig", "key_ops": ["sign", "verify"]} if rng.random() < 0.7 else {"key_ops": ["verify", "sign"]})
     if rep == "generated":
         if kty == "oct":
             k = j.OctKey.generate_key(int(a[2:]), parameters=extra or None)
@@ -54,8 +57,9 @@ def make_sign_key(alg, rep, rng, kid=None):
         else:
             k = j.OKPKey.generate_key(alg.split(":")[1], parameters=extra or None)
         return k, None
-    jwk = key_for(alg, **extra)
+    jwk = key_for(alg, **({"kid": kid} if kid else {}))
     if kty == "oct" or rep == "jwk":
+        jwk = {**jwk, **extra}
         return j.key(jwk), jwk
     cls = {"RSA": j.RSAKey, "EC": j.ECKey, "OKP": j.OKPKey}[kty]
     params = extra or None
